@@ -81,8 +81,8 @@ Print Assumptions C09_gc_reopen.
    "untagged node of the store that had predecessors, all of which were removed" -- from the
    storage, from the graph and from the reference index (so the tags of x go, and the digest
    references of what is removed); every tag of another node stays.  A holder of r is a
-   predecessor that lists r other than as its subject: a referrer does not keep its subject
-   alive, every other link does. *)
+   predecessor that has r among its entries (manifests, layers, config, blobs): a referrer
+   does not keep its subject alive through the subject field, every other link does. *)
 Theorem C09_delete_exact :
   forall succ subject manifest, acyclic succ -> subject_listed succ subject ->
   forall st x, wf st -> autogc st = true -> In x (blobs st) ->
@@ -108,13 +108,14 @@ Proof. exact delete_terminates_final. Qed.
 Print Assumptions C09_delete_queue_terminates.
 
 (* What the cascade never takes: a tagged node; a node outside the store's graph; a node
-   that a surviving node still lists (every predecessor of a removed node, other than the
-   node's own referrers, is removed as well). *)
+   that a surviving node still lists: every predecessor that has the removed node among its
+   entries (manifests, layers, config, blobs -- [entries] = content.Successors minus the
+   subject field; a node that is both subject and entry counts) is removed as well. *)
 Theorem C09_delete_never :
   forall succ subject manifest st x y,
   Gone succ subject manifest st x y -> y <> x ->
   is_tagged st y = false /\ In y (gnodes st) /\
-  (forall p, In p (gnodes st) -> In y (succ p) -> subject p <> Some y ->
+  (forall p, In p (gnodes st) -> In y (entries succ subject p) ->
              Gone succ subject manifest st x p).
 Proof. exact delete_never_final. Qed.
 Print Assumptions C09_delete_never.
